@@ -92,7 +92,7 @@ class RequestChannelCommon(StreamHandler, Publisher, Subscription, Disposable, m
             self.subscriber.subscription.cancel()
 
     def _complete_remote_subscriber(self):
-        if self.remote_subscriber is not None:
+        if self.remote_subscriber is not None and not self._received_complete:
             self.remote_subscriber.on_complete()
 
         self.mark_completed_and_finish(received=True)
